@@ -65,14 +65,30 @@ structure PSrv where
   state : String       -- closed | idle | dead | live
   flags : String       -- for live/dead: W|B then m|n then p|f ; for idle: p|f
   view : List String   -- "T.r1" … (live only)
+  refs : List Nat := []  -- authorities that hold a reference to the client's channel to this server
 deriving Repr
 
+/-- what the implementation printed, as seen by ONE authority (`x` = 0 top-level, 1 = authority "b"): the
+    callback log and the servers are shared, `act` / `opened` / `res` are that authority's -/
 structure Snap where
   cbs : List (Nat × List CbKind)
   act : Option Nat
+  opened : List Nat := []   -- servers this authority holds a channel reference to
   srv : List PSrv
   res : List PRes
+  allRes : List PRes := []  -- the resource states of all authorities
 deriving Repr
+
+/-- the whole output line: both authorities -/
+structure Snap2 where
+  top : Snap
+  b : Snap
+deriving Repr
+
+def Snap2.of (s : Snap2) (x : Nat) : Snap := if x = 0 then s.top else s.b
+
+/-- which authority a resource name belongs to -/
+def ownerOfName (name : String) : Nat := if name.startsWith "b_" then 1 else 0
 
 def fieldOf (impl key : String) : Option String :=
   (impl.splitOn " ").findSome? fun w =>
@@ -121,7 +137,7 @@ def parseRes (s : String) : List PRes :=
 def parseSrv (s : String) : Option PSrv :=
   match s.splitOn "/" with
   | [b, st, "closed"] => some { builds := b.toNat?.getD 0, streams := st.toNat?.getD 0, state := "closed", flags := "", view := [] }
-  | b :: st :: state :: _u :: view :: _ =>
+  | b :: st :: state :: _u :: xr :: view :: _ =>
     let (nm, fl) :=
       if state.startsWith "live" then ("live", (state.drop 4).toString)
       else if state.startsWith "dead" then ("dead", (state.drop 4).toString)
@@ -132,21 +148,30 @@ def parseSrv (s : String) : Option PSrv :=
         match tv.splitOn ":" with
         | [t, ns] => if ns = "" then [] else (ns.splitOn "+").map fun n => t ++ "." ++ n
         | _ => []
-    some { builds := b.toNat?.getD 0, streams := st.toNat?.getD 0, state := nm, flags := fl, view := names }
+    some { builds := b.toNat?.getD 0, streams := st.toNat?.getD 0, state := nm, flags := fl, view := names,
+           refs := parseNats (xr.drop 1).toString }
   | _ => none
 
-def parseSnap (n : Nat) (impl : String) : Option Snap := do
+def parseSnap (n : Nat) (impl : String) : Option Snap2 := do
   let cb ← fieldOf impl "cb"
   let act ← fieldOf impl "act"
+  let opn ← fieldOf impl "open"
   let res ← fieldOf impl "res"
+  let bact ← fieldOf impl "bact"
+  let bopn ← fieldOf impl "bopen"
+  let bres ← fieldOf impl "bres"
   let srv ← (List.range n).mapM fun i => (fieldOf impl s!"s{i}") >>= parseSrv
-  pure { cbs := parseCbs cb, act := act.toNat?, srv := srv, res := parseRes res }
+  let r0 := parseRes res
+  let r1 := parseRes bres
+  pure { top := { cbs := parseCbs cb, act := act.toNat?, opened := parseNats opn, srv := srv, res := r0, allRes := r0 ++ r1 },
+         b := { cbs := parseCbs cb, act := bact.toNat?, opened := parseNats bopn, srv := srv, res := r1, allRes := r0 ++ r1 } }
 
 structure Mon where
   n : Nat := 0
   ign : List Bool := []
   which : String := ""
-  prev : Option Snap := none
+  prev : Option Snap2 := none
+  nobuild : List Nat := []                -- servers whose transport cannot be created right now (op `nobuild`)
   ghosts : List (Nat × WG) := []
   accepted : List (Key × String) := []   -- contents some delivered response carried as valid
   held : Bool := false
@@ -156,7 +181,9 @@ deriving Repr
 
 def Mon.start (n : Nat) (ign : List Bool) (which : String) : Mon :=
   { n := n, ign := ign, which := which,
-    prev := some { cbs := [], act := none, srv := List.replicate n { builds := 0, streams := 0, state := "closed", flags := "", view := [] }, res := [] } }
+    prev :=
+      let e : Snap := { cbs := [], act := none, srv := List.replicate n { builds := 0, streams := 0, state := "closed", flags := "", view := [] }, res := [] }
+      some { top := e, b := e } }
 
 def ghostOf (gs : List (Nat × WG)) (w : Nat) : WG := ((gs.find? (·.1 = w)).map (·.2)).getD {}
 def setGhost (gs : List (Nat × WG)) (w : Nat) (g : WG) : List (Nat × WG) := (gs.filter (·.1 ≠ w)) ++ [(w, g)]
@@ -191,14 +218,15 @@ def checkSubs (post : Snap) : Option String :=
     match post.srv[i]? with
     | some s =>
       if s.state = "live" then
-        let want := (post.res.filter fun r => r.chans.contains i).map fun r => r.key.typ ++ "." ++ r.key.name
+        let want := (post.allRes.filter fun r => r.chans.contains i).map fun r => r.key.typ ++ "." ++ r.key.name
         if (s.view.all want.contains) ∧ (want.all s.view.contains) then none
         else some s!"VIOL server {i} is asked for {s.view} but the resources subscribed there are {want}"
       else none
     | none => none
 
 /-- C43 clauses evaluated on one step of the implementation -/
-def checkC43 (m : Mon) (fs : List String) (pre post : Snap) (accepted : List (Key × String)) : Option String :=
+def checkC43 (m : Mon) (x : Nat) (fs : List String) (pre post : Snap) (accepted : List (Key × String)) : Option String :=
+  let held : Bool := m.held && x == 0        -- only the top-level authority's serializer is ever busy
   let newW : Option Nat := match fs with | ["watch", _, _, w] => w.toNat? | _ => none
   -- clause 2 (no duplicate ResourceChanged) + clause 1 (only accepted content) + latest value / error kind
   let perWatcher := post.cbs.map fun (w, ks) =>
@@ -222,17 +250,21 @@ def checkC43 (m : Mon) (fs : List String) (pre post : Snap) (accepted : List (Ke
   -- clause 5 (new watcher)
   let c5 : Option String := match fs with
     | ["watch", t, name, w] =>
-      if m.held ∨ (t ≠ "T" ∧ t ≠ "U") then none else
+      if held ∨ (t ≠ "T" ∧ t ≠ "U") ∨ ownerOfName name ≠ x then none else
       match w.toNat? with
       | none => none
       | some w =>
-        let want := match resOfKey pre ⟨t, name⟩ with | some r => expectInitial r | none => []
+        -- (no channel yet and the one to server 0 cannot be created: the watch fails with an error)
+        let cannotStart : Bool := pre.act.isNone && m.nobuild.contains 0 &&
+          ((pre.srv[0]?.map (·.state)).getD "closed" == "closed")
+        let want := if cannotStart then [CbKind.resErr .other] else
+          match resOfKey pre ⟨t, name⟩ with | some r => expectInitial r | none => []
         -- the first watch also creates the channel: its stream may fail within the same step, so more
         -- callbacks may follow the immediate ones, but only then
         let got := cbsOf post w
         let built : Bool := (pre.srv.map (·.builds)) != (post.srv.map (·.builds))
         if want.isPrefixOf got && (got.length == want.length || built) then
-          (if (resOfWatcher post w).map (·.key) = some ⟨t, name⟩ then none else some s!"VIOL new watcher {w} is not registered")
+          (if cannotStart || (resOfWatcher post w).map (·.key) = some ⟨t, name⟩ then none else some s!"VIOL new watcher {w} is not registered")
         else some s!"VIOL new watcher {w} did not receive exactly the cached resource and the current error state"
     | _ => none
   -- clause 6 (subscriptions = watched resources)
@@ -244,7 +276,8 @@ def checkC43 (m : Mon) (fs : List String) (pre post : Snap) (accepted : List (Ke
     | ["respond", i, t, _, e] =>
       match i.toNat?, pre.act with
       | some i, some act =>
-        let delivered : Bool := !m.held && (match pre.srv[i]? with | some s => s.state == "live" && s.flags.startsWith "W" | none => false)
+        let delivered : Bool := !held && pre.opened.contains i &&
+          (match pre.srv[i]? with | some s => s.state == "live" && s.flags.startsWith "W" | none => false)
         if !delivered || decide (act < i) then none else
         let es := parseEntries e
         pre.res.findSome? fun r =>
@@ -261,8 +294,10 @@ def checkC43 (m : Mon) (fs : List String) (pre post : Snap) (accepted : List (Ke
       match i.toNat? with
       | some i =>
         let s := pre.srv[i]?
-        let before : Bool := !m.held && (match s with | some s => s.state == "live" && s.flags.startsWith "Wn" | none => false)
-        let sameBuilds : Bool := (pre.srv.map (·.builds)) == (post.srv.map (·.builds))
+        let before : Bool := !held && pre.opened.contains i &&
+          (match s with | some s => s.state == "live" && s.flags.startsWith "Wn" | none => false)
+        -- (no fallback: the authority holds the same channels and has the same active server afterwards)
+        let sameBuilds : Bool := pre.opened == post.opened && pre.act == post.act
         if before && sameBuilds then
           pre.res.findSome? fun r => r.watchers.findSome? fun (w : Nat) =>
             let want : List CbKind := [if r.cache.isNone then .resErr .conn else .ambErr .conn]
@@ -270,32 +305,47 @@ def checkC43 (m : Mon) (fs : List String) (pre post : Snap) (accepted : List (Ke
         else none
       | none => none
     | _ => none
-  firstSome (perWatcher ++ [c5, c6a, c6b, c34])
+  firstSome (perWatcher ++ [c5, c6a, if x = 0 then c6b else none, c34])
 
 /-- C44 clauses evaluated on one step of the implementation. (The sub-clause "the ACTIVE server's stream failed"
     was violated before /repo 98104fb: findings F40, F41, fixed.) -/
-def checkC44 (m : Mon) (fs : List String) (pre post : Snap) : Option String :=
+def checkC44 (m : Mon) (x : Nat) (fs : List String) (pre post : Snap) : Option String :=
+  let held : Bool := m.held && x == 0
   let strictTrigger := true
   let stateOf (s : Snap) (i : Nat) : String := (s.srv[i]?.map (·.state)).getD "closed"
-  let openOf (s : Snap) : List Nat := (List.range s.srv.length).filter fun i => stateOf s i ≠ "closed"
+  -- the servers THIS authority holds a channel to (the transports themselves are shared between authorities)
+  let openOf (s : Snap) : List Nat := s.opened
   let inv : Option String :=
+    match post.opened.find? fun i => stateOf post i == "closed" with
+    | some i => some s!"VIOL the authority holds a channel to server {i} whose transport is closed"
+    | none =>
+    -- released means released: the client's channel must not list the authority any more
+    match (List.range post.srv.length).find? fun i =>
+        ((post.srv[i]?.map (·.refs)).getD []).contains x && !post.opened.contains i with
+    | some i => some s!"VIOL the authority gave up server {i} but did not release its reference to the channel"
+    | none =>
     match post.act with
     | some a => if (openOf post).contains a then
+        match (openOf post).find? (a < ·) with
+        | some i => some s!"VIOL the authority still holds a channel to server {i} below its active server {a}"
+        | none =>
         post.res.findSome? fun r => r.chans.findSome? fun i =>
           if (openOf post).contains i then none else some s!"VIOL {r.key.typ}.{r.key.name} is subscribed on server {i} which has no channel"
       else some s!"VIOL active server {a} has no channel"
-    | none => if openOf post = [] then none else some "VIOL channels are open although there is no active server"
+    | none => if openOf post = [] then none else some "VIOL channels are held although there is no active server"
   -- switch to a lower-priority server
   let sw : Option String := match pre.act, post.act with
     | some a, some b =>
       if a < b then
         let uncached := (pre.res ++ post.res).any fun r => r.cache.isNone
-        let skipped := (List.range b).find? fun x => decide (a < x) && stateOf post x == "closed"
+        -- (a server whose transport cannot be created, and to which no other authority has a channel, is skipped)
+        let skipped := (List.range b).find? fun y => decide (a < y) && !(openOf post).contains y &&
+          !(m.nobuild.contains y && stateOf post y == "closed")
         if !uncached then some s!"VIOL fallback from server {a} to {b} although every watched resource is cached"
         else if skipped.isSome then some s!"VIOL fallback from server {a} to {b} skipped server {skipped.getD 0}"
         -- (events processed on `release` may be old: the active server's stream may have failed and been
         -- re-established while the serializer was busy, so its end state says nothing then)
-        else if strictTrigger && !m.held && stateOf post a == "live" then
+        else if strictTrigger && !held && stateOf post a == "live" then
           some s!"VIOL fallback from server {a} to {b} although the stream of the active server {a} had not failed"
         else if strictTrigger then
           (List.range b).findSome? fun h =>
@@ -312,11 +362,12 @@ def checkC44 (m : Mon) (fs : List String) (pre post : Snap) : Option String :=
     | ["respond", i, _, _, _] =>
       match i.toNat?, pre.act with
       | some i, some act =>
-        let delivered : Bool := !m.held && (match pre.srv[i]? with | some s => s.state == "live" && s.flags.startsWith "W" | none => false)
+        let delivered : Bool := !held && pre.opened.contains i &&
+          (match pre.srv[i]? with | some s => s.state == "live" && s.flags.startsWith "W" | none => false)
         if !delivered then none
         else if act < i then
           -- below the active server: ignored
-          if post.cbs ≠ [] then some s!"VIOL update from server {i} below the active server {act} reached watchers"
+          if (post.cbs.any fun c => (resOfWatcher post c.1).isSome) then some s!"VIOL update from server {i} below the active server {act} reached watchers"
           else if post.act ≠ pre.act then some s!"VIOL update from server {i} below the active server {act} changed the active server"
           else if (post.res.map fun r => (r.key, r.cache, r.status)) ≠ (pre.res.map fun r => (r.key, r.cache, r.status)) then
             some s!"VIOL update from server {i} below the active server {act} changed the cache"
@@ -331,7 +382,7 @@ def checkC44 (m : Mon) (fs : List String) (pre post : Snap) : Option String :=
           if post.act ≠ pre.act then some s!"VIOL update from the active server {i} changed the active server" else none
       | _, _ => none
     | _ => none
-  firstSome [inv, sw, upd, checkSubs post]
+  firstSome [inv, sw, upd, if x = 0 then checkSubs post else none]
 
 /-- C44 "ignores updates from servers below the active one" when the updates were queued behind a busy
     serializer and are processed in order on `release`: follow the active server through the queue (an update
@@ -375,13 +426,13 @@ def observe (m : Mon) (fs : List String) (impl : String) : Mon × String :=
     let accepted := match fs with
       | ["respond", _, t, _, e] => m.accepted ++ ((parseEntries e).filterMap fun (n, u) => match u with | .ok c => some ((⟨t, n⟩ : Key), c) | _ => none)
       | _ => m.accepted
-    let rel : Option String := match fs with | ["release"] => checkRelease m pre post | _ => none
-    let verdict := if m.which = "c43" then checkC43 m fs pre post accepted
-                   else if m.which = "c44" then firstSome [checkC44 m fs pre post, rel] else none
+    let rel : Option String := match fs with | ["release"] => checkRelease m pre.top post.top | _ => none
+    let verdict := if m.which = "c43" then firstSome [checkC43 m 0 fs pre.top post.top accepted, checkC43 m 1 fs pre.b post.b accepted]
+                   else if m.which = "c44" then firstSome [checkC44 m 0 fs pre.top post.top, checkC44 m 1 fs pre.b post.b, rel] else none
     let newW : Option Nat := match fs with | ["watch", _, _, w] => w.toNat? | _ => none
     -- a watcher that registers now has been told nothing (watcher ids may be reused after unwatch)
     let gs0 := match newW with | some w => setGhost m.ghosts w {} | none => m.ghosts
-    let ghosts := post.cbs.foldl (fun gs (w, ks) => setGhost gs w (ks.foldl WG.apply (ghostOf gs w))) gs0
+    let ghosts := post.top.cbs.foldl (fun gs (w, ks) => setGhost gs w (ks.foldl WG.apply (ghostOf gs w))) gs0
     let held := match fs with | ["release"] => false | _ => m.held
     -- what queues up while the serializer is busy
     let (heldQ, heldPure) : List (Nat × String × List (String × Upd)) × Bool :=
@@ -390,12 +441,17 @@ def observe (m : Mon) (fs : List String) (impl : String) : Mon × String :=
       | ["respond", i, t, _, e] =>
         match i.toNat? with
         | some i =>
-          let deliverable : Bool := match pre.srv[i]? with | some s => s.state == "live" && s.flags.startsWith "W" | none => false
+          let deliverable : Bool := pre.top.opened.contains i &&
+            (match pre.top.srv[i]? with | some s => s.state == "live" && s.flags.startsWith "W" | none => false)
           if deliverable then (m.heldQ ++ [(i, t, parseEntries e)], m.heldPure) else (m.heldQ, false)
         | none => (m.heldQ, false)
       | ["release"] => ([], true)
       | _ => (m.heldQ, false)
-    ({ m with prev := some post, ghosts := ghosts, accepted := accepted, held := held, heldQ := heldQ, heldPure := heldPure },
+    let nobuild := match fs with
+      | ["nobuild", l] => if l = "-" then [] else (l.splitOn "+").filterMap String.toNat?
+      | _ => m.nobuild
+    ({ m with prev := some post, ghosts := ghosts, accepted := accepted, held := held, heldQ := heldQ, heldPure := heldPure,
+              nobuild := nobuild },
      verdict.getD "ok")
   | _, _ => (m, "-")
 
